@@ -101,7 +101,9 @@ func (g *pgen) regexStage() string {
 }
 
 func (g *pgen) stringStage() string {
-	return g.pick("split(\".\")", "split(\"+\")", "split(\"*\")", "split(\"|\")", "split(\"(\")", "split(\")\")", "split(\"[\")", "split(\"]\")", "split(\"{\")", "split(\"}\")", "split(\"^\")", "split(\"$\")", "split(\"?\")", "split(\"\\\\\")", "split(\"a.c\")", ". / \".\"", "[splits(\"[.]\")]", "split(\",\")", "split(\"\")", "split(\" \")", "split("+g.strlit()+")", "ascii_downcase", "ascii_upcase", "ltrimstr(\"a\")", "rtrimstr(\"c\")",
+	return g.pick("(\"ab{1,}c\", \"abbc\") | split(\"b{1,}\")", "(\"xx{2}y\", \"xxy\") | split(\"{2}\")", "(\"a{1,2}b a\", \"aab\") | split(\"a{1,2}\")", "(\"aab\", \"a{2}b\") | split(\"a{2}\")",
+		"(\"a.b\", \"axb\") | split(\"a.b\")", "(\"a+\", \"aa\") | split(\"a+\")", "(\"(a)\", \"a\") | split(\"(a)\")", "(\"a\\\\d\", \"a1\") | split(\"\\\\d\")",
+		"split(\".\")", "split(\"+\")", "split(\"*\")", "split(\"|\")", "split(\"(\")", "split(\")\")", "split(\"[\")", "split(\"]\")", "split(\"{\")", "split(\"}\")", "split(\"^\")", "split(\"$\")", "split(\"?\")", "split(\"\\\\\")", "split(\"a.c\")", ". / \".\"", "[splits(\"[.]\")]", "split(\",\")", "split(\"\")", "split(\" \")", "split("+g.strlit()+")", "ascii_downcase", "ascii_upcase", "ltrimstr(\"a\")", "rtrimstr(\"c\")",
 		"startswith(\"a\")", "endswith("+g.strlit()+")", "explode", "explode | implode", "explode | map(. + 1) | implode", "@base64", "@base64d", "@base64 | @base64d", "@uri", "@csv", "@tsv", "@html", "@sh", "@json", "@text",
 		"@base32", "@base32d", "@urid", "@json \"v=\\(.)\"", "@base64 \"x\\(.)y\"", "@html \"<\\(.)>\"", "@sh \"echo \\(.)\"", "@uri \"q=\\(.)\"", "@csv \"\\([., 1])\"",
 		"tojson", "tostring", "tonumber", "length", "utf8bytelength", "\"\\(.)\"", "\"a\\(.)b\\(. | length)\"", ". * 2", ". * 0", ". / \",\"", "ascii", "indices(\"a\")", "index(\"b\")", "rindex(\"a\")",
